@@ -46,6 +46,7 @@ type Frame struct {
 	isDefer bool // frame runs a deferred call of caller
 	isInit  bool
 	onReturn func(res Value) // native continuation (used by models calling SSA closures)
+	onUnwind func()          // when set, a panic may cross the native continuation (after calling this)
 	loopCnt map[*ssa.BasicBlock]int
 }
 
@@ -72,6 +73,7 @@ type G struct {
 	yield  bool
 	resumed bool
 	waitOps []waitOp
+	held    map[Ptr]string // locks held -> acquisition site
 }
 
 type WorkItem struct {
@@ -130,8 +132,10 @@ type Exec struct {
 	tags      []string
 	trace     []string
 	locks     map[Ptr]*LockState
+	siteCount map[string]int
+	fnNames   map[*ssa.Function]string
 	wgs       map[Ptr]*Term
-	onces     map[Ptr]bool
+	onces     map[Ptr]int
 	ghost     map[string]Value // named native state for models
 	switches  int
 	allocCap  int64
@@ -639,7 +643,7 @@ func (ex *Exec) pushFrame(g *G, fn *ssa.Function, args []Value, env []Value, ret
 		fr.regs[i] = a
 	}
 	g.top = fr
-	ex.res.Funcs[fn.String()]++
+	ex.res.Funcs[ex.fnName(fn)]++
 	// lazily initialise packages whose globals this function touches
 	for _, p := range fi.pkgs {
 		ex.ensureInit(g, p)
@@ -680,6 +684,18 @@ func (ex *Exec) ensureInit(g *G, p *ssa.Package) {
 	}
 	fr := ex.pushFrame(g, initFn, nil, nil, nil)
 	fr.isInit = true
+}
+
+func (ex *Exec) fnName(fn *ssa.Function) string {
+	if n, ok := ex.fnNames[fn]; ok {
+		return n
+	}
+	if ex.fnNames == nil {
+		ex.fnNames = map[*ssa.Function]string{}
+	}
+	n := fn.String()
+	ex.fnNames[fn] = n
+	return n
 }
 
 func (ex *Exec) where(fr *Frame) string {
@@ -738,6 +754,9 @@ func (ex *Exec) returnFrom(g *G, res Value) {
 func (ex *Exec) goPanic(g *G, msg string, val Value) {
 	g.inPanic = true
 	g.panicMsg = msg
+	if g.top != nil {
+		ex.tracef("panic %q at %s stack %v", msg, ex.where(g.top), ex.stack(g))
+	}
 	if val == nil {
 		val = IfaceV{T: types.Typ[types.String], V: StrV{S: msg}}
 	}
@@ -800,7 +819,9 @@ func (ex *Exec) unwind(g *G) {
 		// pop frame
 		g.top = fr.caller
 		g.depth--
-		if fr.onReturn != nil {
+		if fr.onUnwind != nil {
+			fr.onUnwind()
+		} else if fr.onReturn != nil {
 			panic(abortf("panic crossing native continuation in %s", fr.fn))
 		}
 	}
@@ -854,7 +875,7 @@ func (ex *Exec) callFn(g *G, fn *ssa.Function, args []Value, env []Value, retTo 
 	if fn.Synthetic == "package initializer" {
 		return false // dependencies are initialised lazily, on first use of their globals
 	}
-	name := fn.String()
+	name := ex.fnName(fn)
 	if h, ok := ex.cfg.icpt[name]; ok && !(h.Kind == "model" && g.top != nil && g.top.fn == h.Fn) {
 		ex.res.Intercepts[name]++
 		return ex.runIntercept(g, h, name, fn, args, retTo)
